@@ -82,6 +82,64 @@ def net(effects):
     return live
 
 
+def watch_identity(ctx, RI, P) -> None:
+    """ObservedWatch identity: (path, recursive flag, filter), one key for ==, != and hash; the filter is stored by the same rule
+    in the watch and in the emitter (None stays None, anything else -- the empty filter included -- becomes a frozenset).
+    Shared: C13 (one emitter per distinct watch), C04 (queue entries are (event, watch) pairs compared with ==), C11 (the filter
+    is part of what distinguishes two schedules of one directory)."""
+    ow = P.cls("ObservedWatch")
+    for m in ("__eq__", "__ne__", "__hash__"):
+        mf = ow.methods.get(m)
+        if mf is None:
+            ctx.viol(RI, f"ObservedWatch.{m}", "identity method missing (object identity would be used)", ow.loc)
+            continue
+        attrs = {n.attr for n in ast.walk(mf.node) if isinstance(n, ast.Attribute) and isinstance(n.value, ast.Name) and n.value.id in ("self", "watch")}
+        ctx.check(attrs == {"key"}, RI, f"ObservedWatch.{m}", f"reads {sorted(attrs)}: identity must be a function of the one key", mf.loc)
+    kf = ow.methods.get("key")
+    if kf is None:
+        raise AnalysisError("anchor vanished: ObservedWatch.key")
+    ret = [n.value for n in ast.walk(kf.node) if isinstance(n, ast.Return)]
+    comps = []
+    if ret and isinstance(ret[0], ast.Tuple):
+        for el in ret[0].elts:
+            d = dotted(el) or ast.unparse(el)
+            # resolve property -> backing field
+            name = d.split(".")[-1]
+            pf = ow.methods.get(name)
+            if pf is not None:
+                r2 = [n.value for n in ast.walk(pf.node) if isinstance(n, ast.Return)]
+                if r2:
+                    name = (dotted(r2[0]) or "").split(".")[-1]
+            comps.append(name)
+    want = {"_path", "_is_recursive", "_event_filter"}
+    ctx.check(set(comps) == want and len(comps) == 3, RI, "ObservedWatch.key", f"key is built from {comps}; the property's watch identity is (path, recursive flag, filter)", kf.loc)
+
+    # the filter as stored: decided by `is None`, never by truthiness (an empty filter selects nothing; it is not "no filter")
+    from ..pse import Cfg
+
+    for cname in ("ObservedWatch", "EventEmitter"):
+        ini = P.find_method(cname, "__init__")
+        if ini is None:
+            raise AnalysisError(f"anchor vanished: {cname}.__init__")
+        okf, why, seenf = True, "", set()
+        for p in Enumerator(Cfg(P)).run(ini, selfcls=cname):
+            st = [e for e in p.evs if e.kind == "store" and e.extra.get("attr") == "_event_filter"]
+            if len(st) != 1:
+                okf, why = False, "the filter is not stored exactly once"
+                continue
+            c = p.conds()
+            isnone = c.get("event_filter is None")
+            v = st[0].extra.get("value")
+            seenf.add(isnone)
+            if isnone is True and v != "None":
+                okf, why = False, f"no filter is stored as `{v}`"
+            elif isnone is False and v != "frozenset(event_filter)":
+                okf, why = False, f"a given filter is stored as `{v}` instead of frozenset(event_filter)"
+            elif isnone is None:
+                okf, why = False, "the stored filter does not depend on `event_filter is None` (a truthiness test makes the empty filter [] collapse into 'no filter': two different watches become one, sharing one emitter whose own filter is whichever came first)"
+        ctx.check(okf and seenf == {True, False}, RI, f"{cname}.__init__ stores the filter by `is None`", why or "both cases expected", ini.loc)
+
+
 def run(ctx) -> None:
     P = ctx.P
     RA = ctx.rule(
@@ -234,33 +292,7 @@ def run(ctx) -> None:
         raise AnalysisError("schedule(): emitter construction `self._emitter_class(...)` not found")
     ctx.check(ok, RO, "BaseObserver.schedule", "an emitter is constructed without a (negative) membership test of the watch in the emitter map under the lock: equal watches would get two emitters", fi.loc)
 
-    # ---------------------------------------------------------------- watch identity
-    ow = P.cls("ObservedWatch")
-    for m in ("__eq__", "__ne__", "__hash__"):
-        mf = ow.methods.get(m)
-        if mf is None:
-            ctx.viol(RI, f"ObservedWatch.{m}", "identity method missing (object identity would be used)", ow.loc)
-            continue
-        attrs = {n.attr for n in ast.walk(mf.node) if isinstance(n, ast.Attribute) and isinstance(n.value, ast.Name) and n.value.id in ("self", "watch")}
-        ctx.check(attrs == {"key"}, RI, f"ObservedWatch.{m}", f"reads {sorted(attrs)}: identity must be a function of the one key", mf.loc)
-    kf = ow.methods.get("key")
-    if kf is None:
-        raise AnalysisError("anchor vanished: ObservedWatch.key")
-    ret = [n.value for n in ast.walk(kf.node) if isinstance(n, ast.Return)]
-    comps = []
-    if ret and isinstance(ret[0], ast.Tuple):
-        for el in ret[0].elts:
-            d = dotted(el) or ast.unparse(el)
-            # resolve property -> backing field
-            name = d.split(".")[-1]
-            pf = ow.methods.get(name)
-            if pf is not None:
-                r2 = [n.value for n in ast.walk(pf.node) if isinstance(n, ast.Return)]
-                if r2:
-                    name = (dotted(r2[0]) or "").split(".")[-1]
-            comps.append(name)
-    want = {"_path", "_is_recursive", "_event_filter"}
-    ctx.check(set(comps) == want and len(comps) == 3, RI, "ObservedWatch.key", f"key is built from {comps}; the property's watch identity is (path, recursive flag, filter)", kf.loc)
+    watch_identity(ctx, RI, P)
 
 
 API = "observers/api.py"
@@ -277,6 +309,7 @@ VARIANTS = [
     dict(name="B remove_handler_for_watch is a no-op", expect="fire", rule="C13/coherent-effects", edits=[(API, "            self._handlers[watch].remove(event_handler)", "            pass")]),
     dict(name="B join of an unstarted emitter not tolerated", expect="fire", rule="C13/unstarted-emitters-tolerated", edits=[(API, "        emitter.stop()\n        with contextlib.suppress(RuntimeError):\n            emitter.join()\n\n    def _clear_emitters", "        emitter.stop()\n        emitter.join()\n\n    def _clear_emitters")]),
     dict(name="B hash from the path only", expect="fire", rule="C13/watch-identity", edits=[(API, "        return hash(self.key)\n\n    def __repr__", "        return hash(self.path)\n\n    def __repr__")]),
+    dict(name="B empty filter collapses into no filter (watch side only)", expect="fire", rule="C13/watch-identity", edits=[(API, "        self._follow_symlink = follow_symlink\n        self._event_filter = frozenset(event_filter) if event_filter is not None else None", "        self._follow_symlink = follow_symlink\n        self._event_filter = frozenset(event_filter) if event_filter else None")]),
     dict(name="B key drops the filter", expect="fire", rule="C13/watch-identity", edits=[(API, "        return self.path, self.is_recursive, self.event_filter", "        return self.path, self.is_recursive")]),
     dict(name="E registration undone on failure", expect="silent", edits=[(API, "                emitter = self._emitter_class(self.event_queue, watch, timeout=self.timeout, event_filter=event_filter)\n                if self.is_alive():\n                    emitter.start()\n                self._add_emitter(emitter)", "                emitter = self._emitter_class(self.event_queue, watch, timeout=self.timeout, event_filter=event_filter)\n                self._add_emitter(emitter)\n                if self.is_alive():\n                    try:\n                        emitter.start()\n                    except Exception:\n                        del self._emitter_for_watch[emitter.watch]\n                        self._emitters.remove(emitter)\n                        raise")]),
     dict(name="E watch added via set union helper", expect="silent", edits=[(API, "            self._watches.add(watch)\n        return watch", "            self._watches.update((watch,))\n        return watch")]),
